@@ -112,13 +112,13 @@ def emit_family(gname, mandatory, optional, cells, aliases=None, containers=("Bo
             for cont in containers + (("Fwd",) if fwd_of is not None else ()):
                 en = fwd_of(en_decl) if cont == "Fwd" else en_decl
                 expect = all(r in en for r in req)
-                for op in ("check", "as_ref", "as_mut", "cast", "into"):
+                for op in ("check", "as_ref", "as_mut", "cast", "cast_from", "into"):
                     if cont == "Ref" and op == "as_mut":
                         continue
                     fname = "cell_%s_%s_%s_%s_%s" % (gname.lower(), "".join(en_decl).lower() or "none", "".join(req).lower(), cont.lower(), op)
                     cells.append((fname, gname, en, req, cont, op, expect))
                     w("pub fn %s() -> Result<u64, (String, String)> {" % fname)
-                    w("    let what = \"group %s built from a type enabling {%s}, %s!(.. impl %s) on a %s container\";" % (gname, ",".join(en), op, impl_list, cont))
+                    w("    let what = \"group %s built from a type enabling {%s}, %s!(.. impl %s) on a %s container\";" % (gname, ",".join(en), "cast" if op == "cast_from" else op, impl_list, cont + (" and back through From::from" if op == "cast_from" else "")))
                     w("    let id: u64 = 7; #[allow(unused_mut, unused_assignments)] let mut acc: u64 = 0; let _ = &mut acc;")
                     w("    let drops = DropScope::new();")
                     w("    #[allow(unused_mut)] let mut imp = %s::new(id);" % ty)
@@ -154,14 +154,18 @@ def emit_family(gname, mandatory, optional, cells, aliases=None, containers=("Bo
                         w("            }")
                         w("            None => { if %s { return Err((\"cast:decision\".into(), format!(\"{}: failed although every requested trait is enabled\", what))); } }" % str(expect).lower())
                         w("        }")
-                    elif op == "cast":
-                        w("        match cast!(g impl %s) {" % impl_list)
+                    elif op in ("cast", "cast_from"):
+                        w("        match cast!(g impl %s) {" % impl_list)  # cast_from differs only in the way back
                         w("            Some(mut x) => {")
                         w("                if !%s { return Err((\"cast:decision\".into(), format!(\"{}: succeeded although a requested trait is not enabled\", what))); }" % str(expect).lower())
                         w("                let _ = &mut x;")
                         w("                " + calls_on("x", req, mutable_cont, mandatory, "owned"))
                         w("                // casting back must give the original group with every optional trait still present")
-                        w("                #[allow(unused_mut)] let mut back = x.upcast();")
+                        if op == "cast":
+                            w("                #[allow(unused_mut)] let mut back = x.upcast();")
+                        else:
+                            # the same way back through the generated From<concrete variant> for the group
+                            w("                #[allow(unused_mut)] let mut back: %s<'_, _, _> = From::from(x);" % gname)
                         for t in optional:
                             w("                if check!(back impl %s) != %s { return Err((\"cast:upcast\".into(), format!(\"{}: after cast + upcast, check!(impl %s) is not what the type enabled\", what))); }" % (t, str(t in en).lower(), t))
                         if mandatory:
